@@ -394,7 +394,28 @@ def r07_12(ctx, rule='R07.12'):
            'used up its task quota the jobs still queued never run, join() returns with them unresolved')
 
 
+
+def r07_14(ctx):
+    ctx.rule('R07.14', 'a new worker is entered in the per-pid tables (control sentinel, consumed-result counter) right '
+                       'after it was started, before any user hook runs: its first result may arrive during the hook, '
+                       'and a result that finds no counter is never credited', floor=2)
+    m = ctx.model
+    fi = m.func('pool:Pool._create_worker_process')
+    cfg = fi.cfg
+    hooks = [n for (n, c) in q.calls(fi, 'self.on_process_up')]
+    starts = [n for (n, c) in q.calls(fi, lambda t: t.endswith('.start'))]
+    q.need(starts, '_create_worker_process does not start the worker')
+    for table in ('self._poolctrl', 'self._on_ready_counters'):
+        regs = [dn for (dn, t, v) in q.assigns(fi, lambda t, table=table: t.startswith(table + '['))]
+        ok = bool(regs) and all(cfg.dominated_by(h, regs)[0] for h in hooks) and \
+            all(cfg.dominated_by(r, starts)[0] for r in regs)
+        ctx.ob('R07.14', '_create_worker_process:%s-before-user-hook' % table.split('.')[1], ok, fi,
+               regs[0] if regs else None,
+               '%s[w.pid] = ... after w.start() and before on_process_up(w)' % table)
+
+
 def run(ctx):
+    r07_14(ctx)
     r07_13(ctx)
     r07_12(ctx)
     r07_10(ctx)
@@ -426,6 +447,8 @@ def run(ctx):
 
 _P = 'billiard/pool.py'
 MUTANTS = [
+    ('tables-registered-after-the-hook', _P, "        self._poolctrl[w.pid] = sentinel\n        self._on_ready_counters[w.pid] = on_ready_counter\n        if self.on_process_up:\n            self.on_process_up(w)\n",
+     "        if self.on_process_up:\n            self.on_process_up(w)\n        self._poolctrl[w.pid] = sentinel\n        self._on_ready_counters[w.pid] = on_ready_counter\n", 'R07.14'),
     ('join-waits-for-the-scanner', _P, "        debug('result handler joined')\n        for i, p in enumerate(self._pool):\n",
      "        debug('result handler joined')\n        if self._timeout_handler is not None:\n            stop_if_not_current(self._timeout_handler, TIMEOUT_MAX)\n        for i, p in enumerate(self._pool):\n", 'R07.11'),
     ('close-flags-the-feeder', _P, "            self._worker_handler.close()\n            self._taskqueue.put(None)\n",
